@@ -133,7 +133,7 @@ const (
 )
 
 // behaviours and the model action lists they correspond to
-var behaviours = []string{"reply", "dup", "503", "silent", "pre-reply", "pre-silent", "late", "toolong", "pre-pre-reply", "reply-after-pre-timeout"}
+var behaviours = []string{"reply", "dup", "503", "silent", "pre-reply", "pre-silent", "late", "toolong", "pre-pre-reply", "reply-after-pre-timeout", "pubfail"}
 
 func main() {
 	seed := flag.Int64("seed", 1, "seed")
@@ -226,7 +226,12 @@ func main() {
 		behav[i] = b
 		start[i] = time.Now()
 		mu.Unlock()
-		c.SendRequest(subj, []byte(`{}`), func(_ string, data []byte, err error) {
+		payload := []byte(`{}`)
+		if b == "pubfail" {
+			// larger than the max_payload the server advertises: the client library rejects the publish locally
+			payload = make([]byte, 1048576+16)
+		}
+		c.SendRequest(subj, payload, func(_ string, data []byte, err error) {
 			k := "reply"
 			if err != nil {
 				k = err.Error()
@@ -237,6 +242,8 @@ func main() {
 					k = "noresponders"
 				case strings.Contains(k, "too long"):
 					k = "toolong"
+				case strings.Contains(k, "payload"):
+					k = "senderror"
 				}
 			}
 			mu.Lock()
